@@ -42,8 +42,22 @@ def run(case):
     try:
         t = mk_tl(tb, case["segs"])
         out = []
+        members = list(t)
+        far = max([abs(x) for s in case["segs"] for x in s] + [0]) + 1000
+        dummy = tb.S([far, far + 3])
         for x in case["ts"]:
             tx = tb.t(x)
+            if members:
+                # same time point probed before, during and after a count-preserving edit: an answer remembered
+                # from an earlier call must not survive the edit
+                t.overlapping(tx)
+                victim = members[(x * 7) % len(members)]
+                t.remove(victim)
+                t.add(dummy)
+                during = segs_of(tb, t.overlapping(tx))
+                assert tb.us(victim) not in during, "overlapping(t) returned a segment that had been removed"
+                t.remove(dummy)
+                t.add(victim)
             out.append([segs_of(tb, t.overlapping(tx)), segs_of(tb, t.overlapping_iter(tx))])
         outq = []
         for q in case.get("qs", []):
